@@ -1,4 +1,4 @@
-from hdrcommon import GEN_RULE, hdr_spec
+from hdrcommon import GEN_RULE, hdr_spec, spine_scripts
 from meta import COMMON_NOTE
 
 SPEC = hdr_spec(
@@ -6,7 +6,7 @@ SPEC = hdr_spec(
     prefixes={"C10"}, profiles=[("clean", 8), ("mixed", 2)],
     rule=GEN_RULE + "Clean at arbitrary positions (right after reorgs, with several side branches on old and new best chain, several consolidated generations, small prune "
          "depths and the real one) always bracketed by full dumps that must be identical; submissions continue afterwards; non-trivial = at least 8 submissions",
-    props_file="C10", thorough_n=5000,
+    props_file="C10", extra=spine_scripts(['autoclean', 'files']), thorough_n=5000,
     assumptions=["chains crossing the 1000-header file boundary and the real 10000 prune depth / automatic clean at height % 10000 are exercised in the thorough tier only (long spine scripts)"],
     partial_note="observational equivalence of Clean is a theorem when the best branch is the root branch (no reorganisation pending) in a repository reached by submissions: "
                  "tip, Header/Hash at every height >= 0 (from memory or from the files Clean wrote), height and most-work-chain flag of every hash, all branches kept "
